@@ -87,6 +87,11 @@ func genPlan(t *rapid.T) interface{} {
 		case k < 12:
 			p.Ops = append(p.Ops, op{Kind: "truncate"})
 		case k < 16:
+			if rapid.IntRange(0, 5).Draw(t, l+".long") == 0 {
+				// past the two weeks after which groups marked deleted are pruned from the metadata
+				p.Ops = append(p.Ops, op{Kind: "sleep", Dur: time.Duration(rapid.IntRange(15, 25).Draw(t, l+".days")) * 24 * time.Hour})
+				break
+			}
 			p.Ops = append(p.Ops, op{Kind: "sleep", Dur: time.Duration(rapid.Int64Range(int64(time.Minute), int64(30*time.Hour)).Draw(t, l+".d"))})
 		case k < 17:
 			p.Ops = append(p.Ops, op{Kind: "failmeta", N: rapid.IntRange(1, 3).Draw(t, l+".n")})
@@ -109,6 +114,65 @@ type world struct {
 	data     *meta.Data
 	failMeta int // number of metadata calls still to fail
 	nodes    []*node
+	// created: every shard group the history created, as it was created
+	// (the harness' own record); seenDeleted: groups seen marked deleted
+	created     map[uint64]groupRec
+	seenDeleted map[uint64]bool
+}
+
+type groupRec struct {
+	rp         string
+	start, end time.Time
+	shards     []uint64
+}
+
+// integrity holds the metadata to the record of created groups: a group stays
+// under its own policy with its own range and shards until it has been marked
+// deleted (only then may pruning remove it), and no policy lists a group that
+// was created under another one. The caller holds w.mu.
+func (w *world) integrity(where string) {
+	if w.created == nil {
+		return
+	}
+	present := map[uint64]bool{}
+	for _, db := range w.data.Databases {
+		for _, rp := range db.RetentionPolicies {
+			for _, g := range rp.ShardGroups {
+				rec, ok := w.created[g.ID]
+				if !ok {
+					continue
+				}
+				if rec.rp != rp.Name {
+					w.run.Fail("metadata-group-under-wrong-policy", "", "%s: policy %s lists shard group %d [%v,%v), which was created under policy %s", where, rp.Name, g.ID, g.StartTime.UTC(), g.EndTime.UTC(), rec.rp)
+					return
+				}
+				var ids []uint64
+				for _, sh := range g.Shards {
+					ids = append(ids, sh.ID)
+				}
+				if !g.StartTime.Equal(rec.start) || !g.EndTime.Equal(rec.end) || fmt.Sprint(ids) != fmt.Sprint(rec.shards) {
+					w.run.Fail("metadata-group-changed", "", "%s: shard group %d of %s was created as [%v,%v) shards %v and now reads [%v,%v) shards %v", where, g.ID, rp.Name, rec.start.UTC(), rec.end.UTC(), rec.shards, g.StartTime.UTC(), g.EndTime.UTC(), ids)
+					return
+				}
+				present[g.ID] = true
+				if g.Deleted() {
+					w.seenDeleted[g.ID] = true
+				}
+			}
+		}
+	}
+	var ids []uint64
+	for id := range w.created {
+		ids = append(ids, id)
+	}
+	sort.Slice(ids, func(i, j int) bool { return ids[i] < ids[j] })
+	for _, id := range ids {
+		if !present[id] && !w.seenDeleted[id] {
+			rec := w.created[id]
+			w.run.Fail("live-group-vanished-from-metadata", "", "%s: shard group %d [%v,%v) of policy %s was never marked deleted and is no longer in the metadata", where, id, rec.start.UTC(), rec.end.UTC(), rec.rp)
+			return
+		}
+	}
 }
 
 type node struct {
@@ -182,6 +246,7 @@ func (m metaStub) DeleteShardGroup(database, policy string, id uint64) error {
 	}
 	w.data = next
 	w.run.Probe("group-marked-deleted")
+	w.integrity("after DeleteShardGroup")
 	return nil
 }
 
@@ -196,8 +261,22 @@ func (m metaStub) PruneShardGroups() error {
 	}
 	next := w.data.Clone()
 	next.Index++
+	w.integrity("before PruneShardGroups")
+	ngroups := func(d *meta.Data) (n int) {
+		for _, db := range d.Databases {
+			for _, rp := range db.RetentionPolicies {
+				n += len(rp.ShardGroups)
+			}
+		}
+		return
+	}
+	before := ngroups(next)
 	next.PruneShardGroups()
+	if ngroups(next) < before {
+		w.run.Probe("deleted-group-pruned")
+	}
 	w.data = next
+	w.integrity("after PruneShardGroups")
 	return nil
 }
 
@@ -260,7 +339,7 @@ func exec(run *core.Run, pl interface{}) {
 		execStore(run, p.Store)
 		return
 	}
-	w := &world{run: run, data: &meta.Data{}, wantDur: map[string]time.Duration{}}
+	w := &world{run: run, data: &meta.Data{}, wantDur: map[string]time.Duration{}, created: map[uint64]groupRec{}, seenDeleted: map[uint64]bool{}}
 	for i := 0; i < p.Nodes; i++ {
 		w.data.Index++
 		w.data.CreateDataNode(fmt.Sprintf("h%d:8086", i), fmt.Sprintf("h%d:8088", i))
@@ -360,6 +439,11 @@ func exec(run *core.Run, pl interface{}) {
 						}
 					}
 				}
+				rec := groupRec{rp: rpName, start: g.StartTime, end: g.EndTime}
+				for _, sh := range g.Shards {
+					rec.shards = append(rec.shards, sh.ID)
+				}
+				w.created[g.ID] = rec
 				run.Logf("op%d group %d [%v,%v) in %s (duration %v), now %v", i, g.ID, g.StartTime.UTC(), g.EndTime.UTC(), rpName, dur, now.UTC())
 			}
 			w.mu.Unlock()
@@ -513,7 +597,7 @@ func TestC17(t *testing.T) {
 		Warmup:         storesim.Warmup,
 		Describe:       describe,
 		Tier:           "A",
-		RequiredProbes: []string{"group-marked-deleted", "local-shard-deleted", "duration-altered", "orphan-kept", "group-deleted-by-operator", "finite-group-truncated", "store-shard-removed-and-verified", "store-live-shard-verified-beside-removed"},
+		RequiredProbes: []string{"group-marked-deleted", "local-shard-deleted", "duration-altered", "orphan-kept", "group-deleted-by-operator", "finite-group-truncated", "deleted-group-pruned", "store-shard-removed-and-verified", "store-live-shard-verified-beside-removed"},
 		Real:           []string{"retention.Service (run loop, ticker on the fake clock)", "meta.Data (ExpiredShardGroups, DeletedShardGroups, DeleteShardGroup, PruneShardGroups, CreateShardGroup, UpdateRetentionPolicy, TruncateShardGroups)", "store mode (1 run in 6): tsdb.Store.DeleteShard / ShardIDs on a real store (inmem, tsi1) with series file, WAL, TSM files, restarts"},
 		Stub:           []string{"metadata mode: TSDBStore (local shard set, DeleteShard with injected failures)", "meta client (serialised apply over real meta.Data, injected errors)"},
 		Assumptions:    []string{"the write-time cut-off ('a write is dropped as too old only if older than the retention period') is checked by C08's MapShards harness", "fault windows are short (<=3 calls); a shard whose deletion keeps failing for longer than the two-week pruning horizon is not explored"},
